@@ -147,6 +147,11 @@ FIXED = [
     {"threads": {"a1": [("send", 100)], "a2": [("close",)], "a3": [("send", 5), ("send", 5)]}},
     # a writer parked at window 0 (first send takes the whole window), then shutdown_write / shutdown(2) / close from another
     # thread, then the peer reads and its WINDOW_ADJUST is delivered - every order of adjust vs. EOF/CLOSE hand-over is a schedule
+    # (first two: the other thread waits until the window was used up and has reopened, i.e. the parked writer has been notified
+    #  by the adjust and is about to leave its wait loop when EOF / CLOSE are produced)
+    {"threads": {"a1": [("send", 32768), ("send", 100)], "a2": [("await_zero",), ("await_window",), ("shutdown_write",)],
+                 "b1": [("recv", 65536)]}, "pkt": 65536},
+    {"threads": {"a1": [("sendall", 33000)], "a2": [("await_zero",), ("await_window",), ("close",)], "b1": [("recv", 65536)]}, "pkt": 65536},
     {"threads": {"a1": [("send", 32768), ("send", 100)], "a2": [("shutdown_write",)], "b1": [("recv", 65536)]}, "pkt": 65536},
     {"threads": {"a1": [("sendall", 33000)], "a2": [("shutdown_rw",)], "b1": [("recv", 65536)]}, "pkt": 65536},
     {"threads": {"a1": [("send_err", 32768), ("send_err", 100)], "a2": [("shutdown_write",)], "b1": [("recv_err", 65536)]}, "pkt": 65536},
@@ -206,7 +211,7 @@ def run(c):
     progs += programs(rnd, 10 if c.quick else 150)
     deadline = time.time() + (9 if c.quick else 200)
     explored = dc.explore_into(runs, c, progs, 25 if c.quick else 250, 6 if c.quick else 40, deadline,
-                               bound=1 if c.quick else 2, gap_runs=8)
+                               bound=1 if c.quick else 2, gap_runs=16)
     laps["explore_s"] = round(time.time() - t0 - laps["model+replay_s"], 1)
     dc.validate(c, runs, INVS, describe)
     laps["validate_s"] = round(time.time() - t0 - laps["model+replay_s"] - laps["explore_s"], 1)
